@@ -496,6 +496,16 @@ impl<'a, 'b> SGen<'a, 'b> {
     }
 
     fn condition(&mut self) -> Expr {
+        if self.p.usage && self.src.chance(1, 6) {
+            // an ordering comparison or logical operator (which the analyser does not represent)
+            // whose operands contain ordinary, possibly rule-violating, sub-expressions: the
+            // rules apply inside them all the same
+            let t = [STy::Int(None), STy::Float(None)][self.src.below(2)].clone();
+            let l = self.expr_of(&t, 1);
+            let r = self.expr_of(&t, 2);
+            let op = [BinOp::Lt, BinOp::Le, BinOp::Gt, BinOp::Ge, BinOp::LogAnd, BinOp::LogOr][self.src.below(6)];
+            return Expr::Bin(op, bx(l), bx(r));
+        }
         match self.src.below(4) {
             0 => self.expr_of(&STy::Bool, 1),
             1 => {
